@@ -13,6 +13,7 @@ import (
 	"github.com/klev-dev/klevdb/pkg/index"
 	"github.com/klev-dev/klevdb/pkg/message"
 	"github.com/klev-dev/klevdb/pkg/segment"
+	"github.com/klev-dev/klevdb/pkg/vhook"
 )
 
 // codec mode: byte-level operations through the public pkg/message, pkg/index, pkg/segment APIs
@@ -197,7 +198,38 @@ func codecStep(dir string, f []string) (res string) {
 	case "recover":
 		p := index.Params{Times: f[1] == "1", Keys: f[2] == "1"}
 		s := putFiles(dir, atoi(f[3]), f[4], f[5])
-		if err := s.Recover(p); err != nil {
+		// the file-system steps of Recover as the tap sees them (compared with RecoverCrash.recover_prog)
+		var steps []string
+		nm := func(x string) string {
+			switch x {
+			case s.Log:
+				return "log"
+			case s.Log + ".recover":
+				return "rtmp"
+			case s.Index:
+				return "idx"
+			case s.Index + ".tmp":
+				return "itmp"
+			}
+			if x == dir {
+				return "dir"
+			}
+			return "?" + filepath.Base(x)
+		}
+		vhook.SetFS(func(kind, path string, n int64) {
+			parts := strings.Split(path, " ")
+			for i := range parts {
+				parts[i] = nm(parts[i])
+			}
+			ev := kind + ":" + strings.Join(parts, ">")
+			if kind == "write" || kind == "create" {
+				ev += fmt.Sprintf(":%d", n)
+			}
+			steps = append(steps, ev)
+		})
+		err := s.Recover(p)
+		vhook.SetFS(nil)
+		if err != nil {
 			return "err " + errClass(err)
 		}
 		// nothing else may be left behind
@@ -208,7 +240,7 @@ func codecStep(dir string, f []string) (res string) {
 				extra += " extra:" + strings.TrimLeft(en.Name(), "0")
 			}
 		}
-		return "ok " + readFileHex(s.Log) + " " + readFileHex(s.Index) + extra
+		return "ok " + readFileHex(s.Log) + " " + readFileHex(s.Index) + extra + " steps=" + strings.Join(steps, ",")
 	case "pubseg":
 		// pubseg t k base loghex idxhex msgs...: Open, Publish, Close on a directory with this one segment
 		p := index.Params{Times: f[1] == "1", Keys: f[2] == "1"}
